@@ -611,25 +611,34 @@ def replay(path):
 
 
 def selftest_determinism(prop, nseeds):
+    """n seeds x GOMAXPROCS {1,4,16} x worker counts {1,4,16} x 2 passes: digests and verdicts must agree."""
     cfg = PROPS[prop]
     work = Work()
     work.prepare()
-    binary = work.build(cfg["pkg"], cfg["engine"], race=cfg["race"])
+    env0 = {}
+    if cfg["engine"] == "gen" or (cfg["engine"] == "rtgen" and os.environ.get("VERIF_HALF") == "gen"):
+        import orch_gen
+        tools = orch_gen.build_tools(work)
+        binary, specdir, _ = orch_gen.prepare_batch(work, tools, 4242, 12, cfg["race"])
+        env0 = {"VERIF_SPEC_DIR": specdir, "VERIF_GEN_DIR": work.path("gen")}
+    else:
+        binary = work.build(cfg.get("pkg", "./engines/rt"), "rt", race=cfg["race"])
     bad = 0
     ref = {}
-    for gmp in ("1", "4", "16"):
+    execs = 0
+    for gmp, jobs in (("1", 1), ("4", 4), ("16", 16)):
         for rep in range(2):
-            env = {"GOMAXPROCS": gmp}
-            outs = run_workers(work, binary, prop, "quick", 424242, nseeds, 600, cfg.get("args"), jobs=[1, 4, 16][rep + (gmp == "16")], env_extra=env)
+            outs = run_workers(work, binary, prop, "quick", 424242, nseeds, 900, cfg.get("args"), jobs=jobs, env_extra=dict(env0, GOMAXPROCS=gmp))
             for o in outs:
+                execs += 1
                 k = o["seed"]
                 d = (o["digest"], json.dumps(o.get("violations"), sort_keys=True))
                 if k in ref and ref[k] != d:
                     bad += 1
                     print("NONDETERMINISTIC seed", k, ref[k][0], d[0])
                 ref.setdefault(k, d)
-            log("GOMAXPROCS=%s pass %d: %d runs, %d mismatches so far" % (gmp, rep, len(outs), bad))
-    print("determinism: %d seeds x 6 executions, %d mismatches" % (len(ref), bad))
+            log("GOMAXPROCS=%s workers=%d pass %d: %d runs, %d mismatches so far" % (gmp, jobs, rep, len(outs), bad))
+    print("determinism %s: %d seeds, %d executions, %d mismatches" % (prop, len(ref), execs, bad))
     return 1 if bad else 0
 
 
